@@ -1048,14 +1048,17 @@ func (c *Client) DialToSMTPClientWithContext(ctxDial context.Context) (*smtp.Cli
 		client.SetLogAuthData()
 	}
 	if err = client.Hello(c.helo); err != nil {
+		_ = client.Close()
 		return nil, err
 	}
 
 	if err = c.tls(client, &isEncrypted); err != nil {
+		_ = client.Close()
 		return nil, err
 	}
 
 	if err = c.auth(client, isEncrypted); err != nil {
+		_ = client.Close()
 		return nil, err
 	}
 
@@ -1093,6 +1096,8 @@ func (c *Client) CloseWithSMTPClient(client *smtp.Client) error {
 		return nil
 	}
 	if err := client.Quit(); err != nil {
+		// The server did not acknowledge the QUIT. Do not leave the connection open.
+		_ = client.Close()
 		return fmt.Errorf("failed to close SMTP client: %w", err)
 	}
 
